@@ -314,7 +314,10 @@ def run_kani(harnesses, scratch):
     kdir = os.path.join(VERIF, "kani")
     work = os.path.join(scratch, "kani")
     shutil.copytree(kdir, work, ignore=shutil.ignore_patterns("target"))
-    shutil.copy(os.path.join(REPO, "Cargo.lock"), os.path.join(work, "Cargo.lock"))
+    # the repository's own lock file when it is there (it is git-ignored), else the copy kept
+    # with the harness crate: the dependency versions are the pinned ones either way
+    if os.path.exists(os.path.join(REPO, "Cargo.lock")):
+        shutil.copy(os.path.join(REPO, "Cargo.lock"), os.path.join(work, "Cargo.lock"))
     # path dependency must point at REPO
     ct = open(os.path.join(work, "Cargo.toml")).read().replace("/repo", REPO)
     open(os.path.join(work, "Cargo.toml"), "w").write(ct)
@@ -386,6 +389,11 @@ def check(prop, tier, seed):
         return _check(prop, cfg, tier, seed, scratch, t0)
     except NoVerdict as e:
         log("NO-VERDICT property=%s: %s" % (prop, e))
+        return 2
+    except Exception as e:
+        # a failure of the machinery itself is never a verdict about the code
+        import traceback
+        log("NO-VERDICT property=%s: internal error of the checking machinery: %s\n%s" % (prop, e, traceback.format_exc()[-1500:]))
         return 2
     finally:
         shutil.rmtree(scratch, ignore_errors=True)
